@@ -27,7 +27,7 @@ import ast
 
 from ..engine import Engine
 from ..report import Report
-from ..facts import holds, canon
+from ..facts import holds, canon, path_of
 from ..model import walk_own
 from .. import dataflow
 from . import common
@@ -92,6 +92,12 @@ def run(e: Engine, rep: Report):
              'parser otherwise acts on Content-Type and builds sub-messages '
              'out of a block that has no body)')
     e12(e, rep)
+    rep.rule('E13', 'the body is input bytes: whatever Envelope.parse stores '
+             'in self.message is a slice of its `data` argument, or ends in '
+             'one (in front of it only what the parser left over of the '
+             'header block) - a body that went through the parser and the '
+             'generator has every lone CR / LF rewritten to CRLF')
+    e13(e, rep)
     rep.floor('E2', 4, 'body provenance obligations')
 
 
@@ -961,3 +967,111 @@ def e12(e: Engine, rep: Report):
                   'treats as left-over body text and fails on - a '
                   'well-formed message is refused', loc=n.loc(),
                   reason='second argument True')
+
+
+# --------------------------------------------------------------------- E13
+def e13(e: Engine, rep: Report):
+    ctx = e.method_ctx(ENV, 'parse')
+    g = e.build(ctx, raises=lambda b, n, r: set(),
+                inline=e.inline_same_self(deny=['_msg_generator',
+                                                '_parse_data']),
+                max_depth=3)
+    where = ctx.func.qname
+    rep.functions.add(where)
+    own = [p for p in ctx.func.params if p not in ('self', 'cls')]
+    dparam = own[0] if own else None
+    dq = '%s#%d' % (dparam, g.entry.frame.id)
+
+    def verdict(x, fr, at, depth=0):
+        """True: ends in a slice of data (or is empty bytes); False: does
+        not; None: not read"""
+        if depth > 8 or x is None:
+            return None
+        if isinstance(x, ast.Constant) and x.value == b'':
+            return True
+        if isinstance(x, ast.Subscript) and isinstance(x.slice, ast.Slice) \
+                and x.slice.upper is None and x.slice.step is None:
+            base, bfr = common.origin(g, x.value, fr, follow_locals=False)
+            return isinstance(base, ast.Name) and \
+                path_of(base, bfr) == dq
+        if isinstance(x, ast.BinOp) and isinstance(x.op, ast.Add):
+            return verdict(x.right, fr, at, depth + 1)
+        if isinstance(x, ast.Name):
+            x2, f2 = common.origin(g, x, fr, follow_locals=False)
+            if x2 is not x:
+                # a parameter: what the caller handed in, at the call
+                ent = [m for m in g.nodes if m.kind == 'call_enter' and
+                       m.extra.get('callee_frame') is fr]
+                return verdict(x2, f2, ent[0] if ent else at, depth + 1)
+            if path_of(x, fr) == dq:
+                return True          # the whole input
+            defs = common.reaching_defs(g, at, path_of(x, fr))
+            if not defs or any(d is None or not isinstance(d.ast, ast.Assign)
+                               for d in defs):
+                return None
+            res = []
+            for d in defs:
+                tgt = d.ast.targets[0]
+                v = d.ast.value
+                if isinstance(tgt, (ast.Tuple, ast.List)) and \
+                        isinstance(v, (ast.Tuple, ast.List)) and \
+                        len(tgt.elts) == len(v.elts):
+                    for t, vv in zip(tgt.elts, v.elts):
+                        if isinstance(t, ast.Name) and t.id == x.id:
+                            v = vv
+                res.append(verdict(v, d.frame, d, depth + 1))
+            if any(r is False for r in res):
+                return False
+            return True if all(r is True for r in res) else None
+        if isinstance(x, ast.Call):
+            vals = common.values_of(g, x, fr)
+            if len(vals) == 1 and vals[0][0] is x:
+                nm = ast.unparse(x.func).rpartition('.')[2]
+                if nm in ('_msg_generator', 'flatten', 'getvalue',
+                          'as_bytes', 'as_string', 'get_payload'):
+                    return False     # re-serialised / parser-made text
+                if nm in ('lstrip', 'rstrip', 'strip') and \
+                        isinstance(x.func, ast.Attribute):
+                    return verdict(x.func.value, fr, at, depth + 1)
+                return None
+            res = []
+            for v, f2 in vals:
+                rn = [m for m in g.of_kind('stmt') if m.frame is f2 and
+                      isinstance(m.ast, ast.Return) and m.ast.value is v]
+                res.append(verdict(v, f2, rn[0] if rn else at, depth + 1))
+            if any(r is False for r in res):
+                return False
+            return True if all(r is True for r in res) else None
+        if isinstance(x, ast.IfExp):
+            a, b = verdict(x.body, fr, at, depth + 1), \
+                verdict(x.orelse, fr, at, depth + 1)
+            if a is False or b is False:
+                return False
+            return True if a and b else None
+        return None
+    n = 0
+    for st in g.of_kind('stmt'):
+        if not (isinstance(st.ast, ast.Assign) and any(
+                path_of(t, st.frame) == 'self.message'
+                for t in st.ast.targets)):
+            continue
+        n += 1
+        rep.evaluations += 1
+        v = verdict(st.ast.value, st.frame, st)
+        if v is None:
+            rep.ok('E13', where, '`%s`' % st.text(50),
+                   reason='provenance not read (E2 judges the cut)',
+                   nontrivial=False, loc=st.loc())
+            continue
+        rep.check(v, 'E13', where, 'self.message ends in a slice of the '
+                  'input', 'Envelope.parse stores `%s` as the body: it does '
+                  'not end in a slice of `%s` but in text that went through '
+                  'the email parser / generator, which rewrite line breaks '
+                  '(every lone CR or LF comes back as CRLF) - the body is '
+                  'no longer the bytes that were received' % (
+                      ' '.join(ast.unparse(st.ast.value).split())[:50],
+                      dparam), loc=st.loc(),
+                  reason='... + data[k:] on every path')
+    if n < 1:
+        rep.error('anchor vanished: assignment of self.message in '
+                  'Envelope.parse')
